@@ -236,7 +236,12 @@ class DQN(RLAlgorithm):
 
             action_mask = torch.ones((batch_size, self.action_dim), device=device)
 
-        return self._get_action(torch_obs, epsilon, action_mask).cpu().numpy()
+        # Inference mode: the choice for one observation must not depend on the
+        # other observations of the batch (BatchNorm in image encoders)
+        self.actor.eval()
+        action = self._get_action(torch_obs, epsilon, action_mask).cpu().numpy()
+        self.actor.train()
+        return action
 
     def _get_action(
         self, obs: TorchObsType, epsilon: torch.Tensor, action_mask: torch.Tensor
